@@ -174,6 +174,30 @@ func (ex *Exec) vrtCall(fn *ssa.Function, args []Value, g *Term, where string) V
 		return nil
 	case "SetFrameObserver", "Reset", "FrameWatch":
 		return nil
+	// text/template reference (the same uninterpreted functions the model of text/template uses)
+	case "TmplParseFails":
+		return UF("tmplParseFails", SBool, T(0))
+	case "TmplExecFails":
+		return UF("tmplExecFails", SBool, T(0), ex.dataIdentity(args[1], where))
+	case "TmplExecOut":
+		return UF("tmplExecOut", SStr, T(0), ex.dataIdentity(args[1], where))
+	case "Reader":
+		// abstract io.Reader: full content, whether reading fails, what was read before the failure
+		return &IfaceVal{Nil: False, Typ: fn.Signature.Results().At(0).Type(), V: &OpaqueVal{Kind: "reader", Args: []Value{args[0], args[1], args[2]}}}
+	case "ReadAll":
+		iv, ok := args[0].(*IfaceVal)
+		if !ok {
+			unsupported("ReadAll of %T", args[0])
+		}
+		ex.panicIf(And(g, iv.Nil), "ReadAll of a nil reader at "+where)
+		if iv.Typ != nil && namedIs(iv.Typ, "bytes", "Buffer") {
+			return inBuilderString(ex, nil, []Value{iv.V}, g, where)
+		}
+		if iv.Typ == nil {
+			return Str("")
+		}
+		unsupported("ReadAll of %v", iv.Typ)
+		return nil
 	// rationals
 	case "R":
 		if !isStrConst(T(0)) {
